@@ -355,6 +355,22 @@ func (fr *Frame) loopEnv(li *loopInfo, st *State) *SpecEnv {
 		mt := rng.X.Type().Underlying().(*types.Map)
 		env.hash["visited"] = tv{t: vc.stGet0(st, fr.iterVis[its[0]]), ty: &ghostMap{mt.Key(), tBool}}
 	}
+	// #visitedN: the visited-set of the map range advanced by the ENCLOSING (or own) loop N
+	for _, l := range fr.loops {
+		if l != li && !l.blocks[li.header] {
+			continue
+		}
+		for _, ins := range l.header.Instrs {
+			if nx, ok := ins.(*ssa.Next); ok {
+				if key, isMap := fr.iterVis[nx.Iter]; isMap {
+					if rng, ok := nx.Iter.(*ssa.Range); ok {
+						mt := rng.X.Type().Underlying().(*types.Map)
+						env.hash[fmt.Sprintf("visited%d", l.ordinal)] = tv{t: vc.stGet0(st, key), ty: &ghostMap{mt.Key(), tBool}}
+					}
+				}
+			}
+		}
+	}
 	return env
 }
 
